@@ -179,6 +179,18 @@ class Enum(object):
         i = bit // n
         items.append(['T', names(perm), [['ModifyColumn', 'T', 'C%d' % i, {'formula': formula(i, S[i])}]], None])
         meta.append(('modify_column', perm, K))
+      # (b') the same walk in a second table W that is never recalculated in full between the steps (no data edits):
+      # what one ModifyColumn leaves behind is what the next one starts from, as in a document being edited.
+      permw = self.perms[(g * 5 + spec['rot'] + 1) % nperm]
+      if g == spec['lo']:
+        self.KW = self.K()
+        items.append(['W', names(permw), [['AddTable', 'W', cols], ['BulkAddRecord', 'W', [None, None], {'K': self.KW}]], None])
+        meta.append(('first_of_shard', permw, self.KW))
+      else:
+        bitw = (gray(g - 1) ^ bits).bit_length() - 1
+        iw = bitw // n
+        items.append(['W', names(permw), [['ModifyColumn', 'W', 'C%d' % iw, {'formula': formula(iw, S[iw])}]], None])
+        meta.append(('modify_column_only', permw, self.KW))
       # (c) a data edit of K in both rows makes every formula cell dirty again: the remaining orders.
       for q in range(1, nperm):
         perm = self.perms[(g + spec['rot'] + q) % nperm]
